@@ -91,8 +91,10 @@ Proof. unfold make_backup_for, backup_core. pose proof FF_ensure. ff. Qed.
 Lemma FF_write_now o st d : FF (write_now o st d).
 Proof. unfold write_now. pose proof FF_backup. ff. Qed.
 
-Lemma FF_finalize_writes o : forall ds st, FF (finalize_writes o st ds).
-Proof. induction ds as [|d r IH]; intros st; cbn [finalize_writes]; pose proof FF_write_now; pose proof FF_ensure; ff. Qed.
+Lemma FF_finalize_writes_from o all : forall ds st, FF (finalize_writes_from o all st ds).
+Proof. induction ds as [|d r IH]; intros st; cbn [finalize_writes_from]; pose proof FF_write_now; pose proof FF_ensure; ff. Qed.
+Lemma FF_finalize_writes o ds st : FF (finalize_writes o st ds).
+Proof. apply FF_finalize_writes_from. Qed.
 
 Lemma FF_finalize_removals ws : forall rs, FF (finalize_removals ws rs).
 Proof. induction rs as [|p r IH]; cbn [finalize_removals]; pose proof FF_remove; ff. Qed.
